@@ -229,6 +229,9 @@ pub mod util;
 mod vanishing_poly;
 pub mod verifier;
 
+#[cfg(feature = "verif_hooks")]
+pub mod verif_hooks;
+
 #[cfg(test)]
 pub mod fibonacci_stark;
 #[cfg(test)]
